@@ -124,6 +124,7 @@ def setup(it, variant):
         channel_labels=A.fresh_array("labels", "float64", (ncv,)), spatial_fcn=models.SymCallable(lambda x: same_shape_summary("spatial")(it, [x], {})),
         t0=SV(z3.Real("t0")), wrot=(A.fresh_array("wrot", "float64", (ncv, ncv)) if variant.get("wrot") else None), dtype=np.int16, ns2add=SV(ns2add)))
     it.session.contracts[spikeglx.Reader] = lambda it_, a, k: sr
+    it.session.contracts[spikeglx.Reader.close] = lambda it_, a, k: a[0].attrs.__setitem__("closed_by_worker", True)
     it.session.contracts[np.load] = lambda it_, a, k: satfile
     it.session.contracts[V.saturation] = saturation_summary
     it.session.contracts[scipy.signal.sosfiltfilt] = same_shape_summary("hp", 1)
@@ -148,7 +149,7 @@ def setup(it, variant):
 
 
 def files_of(it, path):
-    return it.session.ghost_files.get(path.key, [])
+    return getattr(it.session, "ghost_files", {}).get(path.key, [])
 
 
 def run_batch(H, variant, tag):
@@ -158,10 +159,22 @@ def run_batch(H, variant, tag):
         fenv, before, loop, y = setup(it, variant)
         TAPER, NB, ns, offset, nc_out, ncv = y["TAPER"], y["NB"], y["ns"], y["offset"], y["nc_out"], y["ncv"]
         stride = NB - 2 * TAPER
-        it.exec_block(before, fenv)
+        try:
+            it.exec_block(before, fenv)
+        except I.ReturnEx:
+            # the worker returned before its loop: only right when its first batch is not a real one (the batch before it already reaches
+            # the end of the recording), and then it must not have touched any output
+            nbp = term(fenv.vars["n_batch"])
+            it.ctx.oblige(f"skip.only_phantom_workers.{tag}", z3.And(nbp >= 1, NB + stride * (nbp - 1) >= ns), "post",
+                          "a worker gives up before its loop only if the batch before its first one already reaches the end of the recording")
+            it.ctx.oblige(f"skip.touches_nothing.{tag}", z3.BoolVal(not files_of(it, y["out"]) and not files_of(it, y["rms"]) and not files_of(it, y["time"])), "post",
+                          "and then opens / writes none of the output files")
+            return
         fid = files_of(it, y["out"])[-1]
         nb0 = term(fenv.vars["n_batch"])
         first0 = term(fenv.vars["first_s"])
+        it.ctx.oblige(f"inv_init.first_batch_is_real.{tag}", z3.Or(nb0 == 0, NB + stride * (nb0 - 1) < ns), "inv_init",
+                      "a worker that enters its loop starts at a real batch: the batch before it does not reach the end of the recording (no phantom batch)")
         # ---- invariant established by the prologue
         pos_of = lambda first: offset + z3.If(first == 0, z3.IntVal(0), first + TAPER) * nc_out * 2     # noqa
         it.ctx.oblige(f"inv_init.first_s.{tag}", first0 == stride * nb0, "inv_init")
@@ -181,7 +194,8 @@ def run_batch(H, variant, tag):
         b = z3.Int("b")
         it.ctx.assume(b >= nb0)
         first = stride * b
-        # b is a real batch: the previous one did not reach the end of the recording (phantom first batches: finding F-C06-1)
+        # b is a real batch: for the worker's first batch this is inv_init.first_batch_is_real, for later ones the loop went on because the
+        # previous batch stayed short of the worker's boundary (<= ns)
         it.ctx.assume(z3.Or(b == 0, NB + stride * (b - 1) < ns))
         fenv.vars["first_s"] = SV(first)
         fid.pos = wrap(pos_of(first))
@@ -279,10 +293,13 @@ def h_lemmas(H):
     hyp = pre + [X >= 1, X <= ns, n1 * N >= X, (n1 - 1) * N < X, e0 >= 0, last(e0) >= X, z3.Implies(e0 > 0, last(e0 - 1) < X)]
     H.lemma("workers.no_gap", hyp, n1 <= e0 + 1, "the next worker's first batch is at most one after this worker's last batch")
     H.lemma("workers.position_determined", pre + [b >= 0], a(b) == z3.If(b == 0, 0, stride * b + T), "a batch's file position depends on its index only, so a batch processed twice rewrites the same bytes")
-    # F-C06-1: the next worker's first batch may lie beyond the last real batch
+    # the next worker's first batch may lie beyond the last real batch (short recording x many workers; was finding F-C06-1): such a worker
+    # now returns at once (guard in my_function, checked by the batch harnesses); nothing is lost by that:
     B = z3.Int("B")       # number of real batches: the first b with last(b) == ns is B-1
-    H.lemma("workers.first_batch_real", hyp + [B >= 1, last(B - 1) == ns, z3.Implies(B > 1, last(B - 2) < ns)], n1 <= B - 1,
-            "every worker's first batch is a real batch")
+    realB = [B >= 1, last(B - 1) == ns, z3.Implies(B > 1, last(B - 2) < ns)]
+    guard = z3.And(n1 > 0, stride * n1 + 2 * T >= ns)
+    H.lemma("workers.guard_iff_phantom", hyp + realB, guard == (n1 > B - 1), "the guard is true exactly when the worker's first batch is not a real batch")
+    H.lemma("workers.skipped_worker_loses_nothing", hyp + realB + [guard], e0 >= B - 1, "if the next worker has nothing to do, this worker's last batch is the last real one")
     H.input(ns=ns, NBATCH=N, X=X, n_next=n1, e_this=e0, B=B)
     H.cover("workers.pre", hyp + [e0 >= 2])
 
@@ -350,7 +367,7 @@ def native_destripe(rng, ns, nbatch, workers, k_filter):
         shutil.rmtree(d, ignore_errors=True)
 
 
-@bounded(PROPERTY, "native_workers", bound="NumPy/SciPy shim for the two pyfftw calls; ns in {9000, 20000, 33333} x nbatch in {4096, 8192} x workers {1,2,3,5} (quick: 3 combos) x {k-filter, car}, saturated stretch: "
+@bounded(PROPERTY, "native_workers", bound="NumPy/SciPy shim for the two pyfftw calls; ns in {9000, 20000, 33333} x nbatch in {4096, 8192} x workers {1,2,3,5,8} (quick: 3 combos incl. 7 and 8 workers on 12000 / 20000 samples) x {k-filter, car}, saturated stretch: "
          "output size, sync column vs source, byte identity across worker counts, saturation length, RMS rows",
          clause="byte identity for any worker count, sync bit for bit, QC file lengths")
 def b_native(B):
@@ -359,9 +376,10 @@ def b_native(B):
         sys.path.insert(0, shim)
     os.environ["PYTHONPATH"] = shim + os.pathsep + os.environ.get("PYTHONPATH", "")
     rng = np.random.default_rng(B.seed)
-    combos = [(9000, 4096, (1, 2, 3), False), (20000, 8192, (1, 2), False), (12000, 4096, (1, 3), True)]
+    # incl. short recordings split between many workers (some of them have no batch of their own left: they must do nothing)
+    combos = [(9000, 4096, (1, 2, 3), False), (20000, 8192, (1, 2, 8), False), (12000, 4096, (1, 3, 7), True)]
     if B.tier == "thorough":
-        combos = [(ns, nb, (1, 2, 3, 5), kf) for ns in (9000, 20000, 33333) for nb in (4096, 8192) for kf in (False, True)]
+        combos = [(ns, nb, (1, 2, 3, 5, 8), kf) for ns in (9000, 20000, 33333) for nb in (4096, 8192) for kf in (False, True)]
     for ns, nb, workers, kf in combos:
         bad = native_destripe(rng, ns, nb, workers, kf)
         phantom = [x for x in bad if x[0] in ("rms rows", "bytes differ across worker counts")]
